@@ -156,6 +156,13 @@ func (d *DNSFilter) filterSetProperties(
 		if shouldRestart {
 			// Download the filter contents.
 			shouldRestart, err = d.update(flt)
+			if err == nil && !shouldRestart {
+				// The filter was unloaded, so unchanged contents mean that it
+				// has no rules now, but its file, if any, still has the rules
+				// from the previous location or from before it was disabled.
+				err = removeStaleFile(flt.Path(d.conf.DataDir))
+				shouldRestart = err == nil
+			}
 		}
 	} else {
 		// TODO(e.burkov):  The validation of the contents of the new URL is
@@ -167,6 +174,17 @@ func (d *DNSFilter) filterSetProperties(
 	}
 
 	return shouldRestart, err
+}
+
+// removeStaleFile removes the file with the rules of a filter that has no rules
+// anymore.
+func removeStaleFile(path string) (err error) {
+	err = os.Remove(path)
+	if err != nil && !errors.Is(err, os.ErrNotExist) {
+		return fmt.Errorf("removing stale filter file: %w", err)
+	}
+
+	return nil
 }
 
 // filterExists returns true if a filter with the same url exists in d.  It's
